@@ -658,9 +658,68 @@ func sweep(shapesPath, outPath string) {
 	out := newOut(outPath)
 	caseLog := newOut(outPath + ".cases")
 	runParseCases(cases, out, caseLog)
+	nre := 0
+	for _, c := range cases {
+		if !skipKeys[fmt.Sprint("c", c.ID)] && reparse(c, out) {
+			nre++
+		}
+	}
 	out.Close()
 	caseLog.Close()
-	fmt.Printf("{\"catalogue\":%d,\"skipped\":%d,\"mutations\":%d,\"random\":%d,\"cases\":%d}\n", len(cat), skipped, nmut, nrand, len(cases))
+	fmt.Printf("{\"catalogue\":%d,\"skipped\":%d,\"mutations\":%d,\"random\":%d,\"cases\":%d,\"reparsed\":%d}\n", len(cat), skipped, nmut, nrand, len(cases), nre)
+}
+
+// reparse: a text the parser accepts denotes a lookup list the language can express, so describing that list
+// and parsing the description must give it back.  Mutated descriptions supply the redundant spellings
+// (repeated glyphs, overlapping and reversed ranges) that Explain itself never writes.
+func reparse(c *Case, out *vio.Out) bool {
+	if c.Font == "0" || c.Font == "00" {
+		return false
+	}
+	gsub, gpos := strings.Contains(c.Text, "GSUB"), strings.Contains(c.Text, "GPOS")
+	if gsub == gpos {
+		return false
+	}
+	tab := "GSUB"
+	if gpos {
+		tab = "GPOS"
+	}
+	f := font(c.Font)
+	o := parseOnce(f.F, c.Text)
+	if !o.Returned {
+		hangExit(fmt.Sprint("c", c.ID), resumeP, resumeC)
+	}
+	if !o.OK || len(o.Lookups) == 0 {
+		return false
+	}
+	l1, _ := dsl.Canon(o.Lookups)
+	e := ev{"ev": "reparse", "case": c.ID, "font": c.Font, "text": c.Text, "l1": l1, "f1": dsl.Formats(o.Lookups),
+		"ci1": dsl.CovIndices(o.Lookups), "text2": "", "xpanic": "", "ppanic": "", "perr2": "", "returned": true, "leaks": 0,
+		"l2": []any{}, "f2": [][]int{}, "ci2": [][][][]int{}}
+	text2, xpanic, xhung := explain(f, tab, o.Lookups)
+	e["text2"], e["xpanic"] = text2, trim(xpanic, 300)
+	if xhung {
+		e["returned"] = false
+		out.Emit(e)
+		hangExit(fmt.Sprint("c", c.ID), resumeP, resumeC)
+	}
+	if xpanic == "" {
+		o2 := parseOnce(f.F, text2)
+		e["returned"], e["leaks"], e["perr2"], e["ppanic"] = o2.Returned, o2.Leaked, trim(o2.Err, 300), trim(o2.PanicMsg, 300)
+		if o2.Panicked && o2.PanicMsg == "" {
+			e["ppanic"] = "panic"
+		}
+		if o2.OK {
+			l2, _ := dsl.Canon(o2.Lookups)
+			e["l2"], e["f2"], e["ci2"] = l2, dsl.Formats(o2.Lookups), dsl.CovIndices(o2.Lookups)
+		}
+		if !o2.Returned {
+			out.Emit(e)
+			hangExit(fmt.Sprint("c", c.ID), resumeP, resumeC)
+		}
+	}
+	out.Emit(e)
+	return true
 }
 
 // ---- (b) round trips ---------------------------------------------------------------------
@@ -687,7 +746,7 @@ func runRT(c *Case, out *vio.Out) (hung bool) {
 		text, xpanic, xhung := explain(f, s.Tab, ll)
 		e = ev{"ev": "rt", "case": c.ID, "shape": s, "text": text, "xpanic": trim(xpanic, 300), "note": note,
 			"before": before, "after": []any{}, "perr": "", "ppanic": "", "returned": !xhung, "leaks": 0, "rep": r,
-			"bfmt": bfmt, "afmt": [][]int{}}
+			"bfmt": bfmt, "afmt": [][]int{}, "bci": dsl.CovIndices(ll), "aci": [][][][]int{}}
 		if xhung {
 			hung = true
 			break
@@ -710,6 +769,7 @@ func runRT(c *Case, out *vio.Out) (hung bool) {
 			e["after"] = after
 			afmt := dsl.Formats(o.Lookups)
 			e["afmt"] = afmt
+			e["aci"] = dsl.CovIndices(o.Lookups)
 			if note2 != "" {
 				e["note"] = note2
 			}
@@ -779,7 +839,8 @@ func runNum(c *Case, out *vio.Out) (hung bool) {
 		pp = "panic"
 	}
 	out.Emit(ev{"ev": "num", "case": c.ID, "nk": c.Idx[0], "nl": c.Idx[1], "font": c.Font, "text": c.Text,
-		"returned": o.Returned, "leaks": o.Leaked, "perr": trim(o.Err, 300), "ppanic": pp, "got": got})
+		"returned": o.Returned, "leaks": o.Leaked, "perr": trim(o.Err, 300), "ppanic": pp, "got": got,
+		"gci": dsl.CovIndices(o.Lookups)})
 	return !o.Returned
 }
 
@@ -811,7 +872,8 @@ func runMean(c *Case, out *vio.Out) (hung bool) {
 		pp = "panic"
 	}
 	out.Emit(ev{"ev": "mean", "case": c.ID, "mid": c.Mid, "font": c.Font, "text": c.Text, "returned": o.Returned,
-		"leaks": o.Leaked, "perr": trim(o.Err, 300), "ppanic": pp, "got": got, "note": note})
+		"leaks": o.Leaked, "perr": trim(o.Err, 300), "ppanic": pp, "got": got, "note": note,
+		"gci": dsl.CovIndices(o.Lookups)})
 	return !o.Returned
 }
 
@@ -864,6 +926,7 @@ func one(casePath, outPath string) {
 	switch c.Kind {
 	case "parse":
 		runParseCases([]*Case{&c}, out, nil)
+		reparse(&c, out)
 	case "rt":
 		runRT(&c, out)
 	case "mean", "num", "errline":
